@@ -1095,6 +1095,13 @@ func (sm *StyleManager) addTOCStyles() {
 // GetStyleWithInheritance 获取具有继承属性的样式
 // 如果样式基于其他样式，会合并父样式的属性
 func (sm *StyleManager) GetStyleWithInheritance(styleID string) *Style {
+	return sm.getStyleWithInheritance(styleID, map[string]bool{})
+}
+
+// getStyleWithInheritance 沿 basedOn 链解析样式；visiting 记录链上已经过的样式ID，
+// basedOn 关系成环（A 基于 B、B 基于 A，或样式基于自身）时在第一次回到已访问样式处截断，
+// 否则递归不会终止，进程会因栈溢出而崩溃
+func (sm *StyleManager) getStyleWithInheritance(styleID string, visiting map[string]bool) *Style {
 	style := sm.GetStyle(styleID)
 	if style == nil {
 		return nil
@@ -1105,8 +1112,13 @@ func (sm *StyleManager) GetStyleWithInheritance(styleID string) *Style {
 		return style
 	}
 
+	visiting[styleID] = true
+	if visiting[style.BasedOn.Val] {
+		return style
+	}
+
 	// 递归获取基础样式
-	baseStyle := sm.GetStyleWithInheritance(style.BasedOn.Val)
+	baseStyle := sm.getStyleWithInheritance(style.BasedOn.Val, visiting)
 	if baseStyle == nil {
 		return style
 	}
@@ -1182,6 +1194,13 @@ func mergeParagraphProperties(base, override *ParagraphProperties) *ParagraphPro
 		merged.Shading = override.Shading
 	} else if base.Shading != nil {
 		merged.Shading = base.Shading
+	}
+
+	// 合并网格对齐
+	if override.SnapToGrid != nil {
+		merged.SnapToGrid = override.SnapToGrid
+	} else if base.SnapToGrid != nil {
+		merged.SnapToGrid = base.SnapToGrid
 	}
 
 	// 合并其他属性
